@@ -234,32 +234,36 @@ def Etching.supply (e : Etching) : Option Nat :=
     if premine + cap * amount < 2 ^ 128 then some (premine + cap * amount) else none
   else none
 
-/-- the `Flag::Terms.take(&mut flags).then(|| Terms { … })` part -/
+/-- the `Flag::Terms.take(&mut flags).then(|| Terms { … })` part: the terms, the flags left and
+the fields left.  (Fields are evaluated in source order: cap, height.0, height.1, amount,
+offset.0, offset.1.) -/
 def takeTerms (flags : Nat) (fields : Fields) : Option Terms × Nat × Fields :=
-  let (isTerms, flags) := takeFlag 1 flags
-  if isTerms then
-    let (cap, fields) := take1 8 wAny fields
-    let (hs, fields) := take1 12 wU64 fields
-    let (he, fields) := take1 14 wU64 fields
-    let (amount, fields) := take1 10 wAny fields
-    let (os, fields) := take1 16 wU64 fields
-    let (oe, fields) := take1 18 wU64 fields
-    (some ⟨amount, cap, hs, he, os, oe⟩, flags, fields)
-  else (none, flags, fields)
+  let fl := takeFlag 1 flags
+  if fl.1 then
+    let cap := take1 8 wAny fields
+    let hs := take1 12 wU64 cap.2
+    let he := take1 14 wU64 hs.2
+    let amount := take1 10 wAny he.2
+    let os := take1 16 wU64 amount.2
+    let oe := take1 18 wU64 os.2
+    (some ⟨amount.1, cap.1, hs.1, he.1, os.1, oe.1⟩, fl.2, oe.2)
+  else (none, fl.2, fields)
 
-/-- the `Flag::Etching.take(&mut flags).then(|| Etching { … })` part -/
+/-- the `Flag::Etching.take(&mut flags).then(|| Etching { … })` part (source order: divisibility,
+premine, rune, spacers, symbol, terms, turbo) -/
 def takeEtching (flags : Nat) (fields : Fields) : Option Etching × Nat × Fields :=
-  let (isEtching, flags) := takeFlag 0 flags
-  if isEtching then
-    let (divisibility, fields) := take1 1 wDivisibility fields
-    let (premine, fields) := take1 6 wAny fields
-    let (rune, fields) := take1 4 wAny fields
-    let (spacers, fields) := take1 3 wSpacers fields
-    let (symbol, fields) := take1 5 wSymbol fields
-    let (terms, flags, fields) := takeTerms flags fields
-    let (turbo, flags) := takeFlag 2 flags
-    (some ⟨divisibility, premine, rune, spacers, symbol, terms, turbo⟩, flags, fields)
-  else (none, flags, fields)
+  let fl := takeFlag 0 flags
+  if fl.1 then
+    let divisibility := take1 1 wDivisibility fields
+    let premine := take1 6 wAny divisibility.2
+    let rune := take1 4 wAny premine.2
+    let spacers := take1 3 wSpacers rune.2
+    let symbol := take1 5 wSymbol spacers.2
+    let terms := takeTerms fl.2 symbol.2
+    let turbo := takeFlag 2 terms.2.1
+    (some ⟨divisibility.1, premine.1, rune.1, spacers.1, symbol.1, terms.1, turbo.1⟩, turbo.2,
+      terms.2.2)
+  else (none, fl.2, fields)
 
 /-- everything `decipher` extracts from the message before deciding runestone/cenotaph -/
 structure Parsed where
@@ -273,12 +277,11 @@ structure Parsed where
   deriving Repr, DecidableEq, Inhabited
 
 def parseFields (n : Nat) (fields : Fields) : Parsed :=
-  let (flagsO, fields) := take1 2 wAny fields
-  let flags := flagsO.getD 0
-  let (etching, flags, fields) := takeEtching flags fields
-  let (mint, fields) := take2 20 wMint fields
-  let (pointer, fields) := take1 22 (wPointer n) fields
-  ⟨etching, mint, pointer, flags, fields⟩
+  let flags := take1 2 wAny fields
+  let etching := takeEtching (flags.1.getD 0) flags.2
+  let mint := take2 20 wMint etching.2.2
+  let pointer := take1 22 (wPointer n) mint.2
+  ⟨etching.1, mint.1, pointer.1, etching.2.1, pointer.2⟩
 
 /-- `flaw.get_or_insert(f)` when `cond` -/
 def orFlaw (flaw : Option Flaw) (cond : Bool) (f : Flaw) : Option Flaw :=
